@@ -27,6 +27,9 @@ CLAIMS = {
  "C11": ("Theorems: constants, linear exactness on any spacing, donor-cell rule (generic field); over R: every mean lies between its two neighbours and "
          "harmonic <= geometric <= arithmetic with the same width weights (weighted AM-GM from 1+x<=exp x) (Props/C11.v); means suite on all classes incl. "
          "zeros; probes incl. geometricMean closed form", "DESIGN.md 4 (C11)"),
+ "C16": ("Finite enumerations (proofs by computation over finite domains, lifted with forallb_forall / case analysis) over tables REGENERATED from the source: "
+         "6 labels x 9 classes x get/set (+CellProp), periodic flags on radial boundaries raise ValueError and no other flag does, the term-kind chain of "
+         "solvePDE yields TypeError exactly for non-conforming terms (Props/C16.v); every table row plus shapes, arities 0..7 and BoundaryFace types is executed on the implementation", "DESIGN.md 4 (C16)"),
  "C17": ("Theorems: under a change of the length unit every diffusion/central/upwind stencil coefficient of the rescaled problem is 1/T times the original, "
          "boundary a/h unchanged, ghost values scale with K; linearity of each term in its coefficient field (Props/C17.v). The assembly 'K*x solves the "
          "rescaled system' for arbitrary term lists is PARTIAL in Coq (row-level) and exercised on the real code in two unit systems over +-6 decades", "DESIGN.md 4 (C17)"),
